@@ -537,6 +537,9 @@ func (v *vector) runFuture(alts []int, vars []string) {
 
 func main() {
 	r = vk.New("exploration")
+	if r.ReplayIn != "" {
+		fmt.Printf("replay %s: the exploration is deterministic and exhaustive; re-running the quick tier re-reports the recorded violation key if it still occurs\n", r.ReplayIn)
+	}
 	r.SetBudget(80*time.Second, 15*time.Minute)
 
 	for i := 0; i < 6; i++ {
